@@ -21,7 +21,7 @@ import (
 func init() {
 	core.Register(&core.Property{
 		ID:          "C17",
-		Rule:        "Percentage 0..1000 exhaustively; Frequency: quick = every multiple of 100 Hz in [100 MHz, 1 GHz] with stride 37 + every Hz in ten 100-kHz windows + boundary values up to 2^32, thorough = every multiple of 100 Hz in [0, 2.5 GHz] + every Hz in 100 MHz of windows; HEXBytes of length 0..64 (with and without 0x on input); ISO8601Time at seeded instants in years 0002..9998 with minute-granular zone offsets; the 20 request/answer payload structs and the 3 profile structs filled by a reflection-driven generator (optional pointers nil/non-nil, slices nil/empty/non-empty, RawMessage from a small JSON grammar): Marshal->Unmarshal must be semantically equal and re-Marshal byte-identical. Key envelopes: NewKeyEnvelope output vs. the harness' RFC 3394 wrap; Unwrap must succeed exactly when the model's integrity check passes over correct / wrong-KEK / bit-flipped / truncated envelopes, KEK sizes 16/24/32 (and invalid sizes). Distinct = value classes per type, struct type x optional-field pattern, envelope tamper class x KEK size.",
+		Rule:        "Percentage 0..1000 exhaustively; Frequency: quick = every multiple of 100 Hz in [100 MHz, 1 GHz] with stride 37 + every Hz in ten 100-kHz windows + boundary values up to 2^32, thorough = every multiple of 100 Hz in [0, 2.5 GHz] + every Hz in 100 MHz of windows; HEXBytes of length 0..64 (one in eight: up to 1264) (with and without 0x on input); ISO8601Time at seeded instants in years 0002..9998 with minute-granular zone offsets; the 20 request/answer payload structs and the 3 profile structs filled by a reflection-driven generator (optional pointers nil/non-nil, slices nil/empty/non-empty, RawMessage from a small JSON grammar): Marshal->Unmarshal must be semantically equal and re-Marshal byte-identical. Key envelopes: NewKeyEnvelope output vs. the harness' RFC 3394 wrap; Unwrap must succeed exactly when the model's integrity check passes over correct / wrong-KEK / bit-flipped / truncated envelopes, KEK sizes 16/24/32 (and invalid sizes). Distinct = value classes per type, struct type x optional-field pattern, envelope tamper class x KEK size.",
 		Assumptions: []string{"encoding/json, encoding/hex, time of the Go standard library are trusted", "RFC 3394 key wrap as implemented in harness/spec/crypto.go (the library uses NickBall/go-aes-key-wrap)"},
 		MinEvals:    1000,
 		Run:         runC17,
@@ -163,7 +163,11 @@ func fillRandom(r *core.RNG, v reflect.Value, pat *strings.Builder) {
 			v.Set(reflect.ValueOf(backend.HEXBytes{}))
 			pat.WriteByte('e')
 		default:
-			v.Set(reflect.ValueOf(backend.HEXBytes(r.Bytes(1 + r.Intn(40)))))
+			ln := 1 + r.Intn(40)
+			if r.Chance(1, 12) {
+				ln = 200 + r.Intn(300) // a maximum-size PHYPayload, a long FRMPayload
+			}
+			v.Set(reflect.ValueOf(backend.HEXBytes(r.Bytes(ln))))
 			pat.WriteByte('b')
 		}
 		return
@@ -219,6 +223,9 @@ func fillRandom(r *core.RNG, v reflect.Value, pat *strings.Builder) {
 			pat.WriteByte('E')
 		default:
 			n := 1 + r.Intn(3)
+			if r.Chance(1, 10) {
+				n = 4 + r.Intn(40) // long lists (FactoryPresetFreqs, gateway lists)
+			}
 			s := reflect.MakeSlice(t, n, n)
 			for i := 0; i < n; i++ {
 				fillRandom(r, s.Index(i), pat)
@@ -576,6 +583,9 @@ func runC17(c *core.Ctx) {
 		switch i % 4 {
 		case 0:
 			ln := r.Intn(65)
+			if r.Chance(1, 8) {
+				ln = 65 + r.Intn(1200)
+			}
 			b := r.Bytes(ln)
 			hb := backend.HEXBytes(b)
 			txt, err := hb.MarshalText()
